@@ -501,11 +501,22 @@ func (conn *Conn) postConnect(ctx context.Context, start bool) {
 		go conn.send(ctx)
 		go conn.recv()
 		go conn.runLoop(ctx)
+		go conn.watch(ctx, conn.generation)
 		if conn.cfg.PingFreq > 0 {
 			conn.wg.Add(1)
 			go conn.ping(ctx)
 		}
 	}
+}
+
+// watch is started as a goroutine after a connection is established. It ends
+// the connection when the context is cancelled. send and runLoop do the same,
+// but neither can notice the cancellation while send is blocked writing to a
+// peer that has stopped reading and runLoop is inside a handler that is in
+// turn blocked on the full output queue; closing the socket frees both.
+func (conn *Conn) watch(ctx context.Context, gen uint64) {
+	<-ctx.Done()
+	conn.close(gen)
 }
 
 // hasPort returns true if the string hostname has a :port suffix.
